@@ -10,6 +10,10 @@
 //! `P <width> <hex pattern text>`: the same for a pattern, wrapped as `let <pattern> = x;`.
 //! `M <width> <hex module text>`  (reparse oracle on whole modules)
 //!     answer: `perr` | `ok <n toplevels>` | `rerr:<hex message>` | `diff:<hex T0>:<hex T1>` | `panic:<hex>`
+//! `X <width> <hex expr text>`  (protocol `fmt-doc`): the tree of the expression, the `Document` that
+//!     `create_doc` builds for it (hook `samlang_printer::verif_hooks::expression_doc`, primitive nodes
+//!     in prefix notation) and the expression formatted at the given width.
+//!     answer: `<T0>;<doc>;<hex printed expr>` or `perr`
 //! `F <hex module text>`: hex of the in-process formatting at width 100 (reference for the CLI leg).
 //! `D <hex module text>`: dump of the module tree (debugging / replay).
 use samlang_ast::source::*;
@@ -426,6 +430,24 @@ fn op_expr(width: usize, text: &str) -> String {
   format!("{};{};{}", t0, hex(etext.as_bytes()), t1)
 }
 
+/// `X`: the document of an expression (before the layout engine) and its layout at one width.
+fn op_doc(width: usize, text: &str) -> String {
+  let mut heap = Heap::new();
+  let src = format!("class A {{ function f(): unit = {text} }}");
+  let m0 = match parse(&mut heap, &src) {
+    Ok(m) => m,
+    Err(_) => return "perr".to_string(),
+  };
+  if m0.toplevels.len() != 1 {
+    return "perr".to_string();
+  }
+  let Some(b0) = body_of(&m0) else { return "perr".to_string() };
+  let t0 = dump_expr(&heap, b0);
+  let doc = samlang_printer::verif_hooks::expression_doc(&heap, &m0.comment_store, b0);
+  let etext = samlang_printer::pretty_print_expression(&heap, width, &m0.comment_store, b0);
+  format!("{};{};{}", t0, doc, hex(etext.as_bytes()))
+}
+
 /// `P`: a pattern, exercised as `let <pattern> = x;` (pattern parser + `matching_pattern_to_document`).
 fn op_pattern(width: usize, text: &str) -> String {
   fn let_pattern<'a>(m: &'a Module<()>) -> Option<&'a expr::DeclarationStatement<()>> {
@@ -558,6 +580,7 @@ fn main() {
     let t: Vec<&str> = line.split(' ').collect();
     let r = catch_unwind(AssertUnwindSafe(|| match t[0] {
       "E" | "S" if t.len() == 3 => op_expr(t[1].parse().unwrap_or(100), &unhex_str(t[2])),
+      "X" if t.len() == 3 => op_doc(t[1].parse().unwrap_or(100), &unhex_str(t[2])),
       "P" if t.len() == 3 => op_pattern(t[1].parse().unwrap_or(100), &unhex_str(t[2])),
       "M" if t.len() == 3 => op_module(t[1].parse().unwrap_or(100), &unhex_str(t[2])),
       "W" if t.len() == 3 => {
